@@ -106,10 +106,13 @@ def oracle(line: str, obs: Obs):
                     realms[r].append(ent)
                 ent[1].append(pi)
     conn_peer, state = {}, {}
+    raising: dict = {}       # application index -> its handler raises
     first_ce = {}            # connection -> Origin-Host of the first CER read on it (who the connection belongs to)
     meta = getattr(oracle, "meta", {})
     for ev, lines in obs.blocks:
         t = ev.split(" ")
+        if t[0] == "outcome":
+            raising[int(t[1])] = t[2].startswith("raise")
         if t[0] == "anon":
             first_ce[f"c{t[1]}"] = "ghost.x"
         if t[0] == "rx" and len(t) == 3:
@@ -135,7 +138,12 @@ def oracle(line: str, obs: Obs):
                     ai = next((ai for ai, ps in realms[info["realm"]]
                                if cfg["apps"][ai]["id"] == m["app"] and (pi is None or pi in ps)), None)
                     exp = ("app", ai) if ai is not None else ("err", 3007)
-                if exp[0] == "app":
+                if exp[0] == "app" and raising.get(exp[1]):
+                    want = f"APP a{exp[1]} REQ cmd={m['cmd']} hbh={m['hbh']} e2e={m['e2e']}"
+                    if apps != [want] or len(outs) != 1 or outs[0]["rc"] != "5012" or outs[0]["hbh"] != str(m["hbh"]):
+                        fails.append({"what": "a request whose handling failed (the handler raised) is not answered by the node with 5012",
+                                      "event": ev[:300], "real": str(apps + [str(o) for o in outs])[:400]})
+                elif exp[0] == "app":
                     want = f"APP a{exp[1]} REQ cmd={m['cmd']} hbh={m['hbh']} e2e={m['e2e']}"
                     if apps != [want] or outs:
                         fails.append({"what": "valid request not handed exactly once to the matching application (and to no other)",
@@ -227,6 +235,11 @@ def scenarios(rng: random.Random, tier: str):
         d = nodegen.ccr(hbh[0], 9000 + hbh[0], host, realm, app)
         meta[d] = {"missing": [], "has_dr": True, "realm": realm, "ans_has_fa": True, "cls": "CreditControlRequest"}
         return f"rx {conn} {d}"
+    # the handler fails -- with an ordinary exception, one without arguments, the library's own not-routable error (a handler
+    # that forwards the request and finds no peer for it): 5012, and the next request is handled like any other
+    for how in ("raise", "raise0", "raisenr"):
+        out.append(pre + f" | outcome 0 {how} | " + req(0, "peer1.x", "realm.local") + " | " + req(0, "peer1.x", "realm.local") +
+                   " | outcome 0 answer | " + req(0, "peer1.x", "realm.local"))
     xr = ("NODE host=node.local;realm=realm.local;peer:peer1.x,realm.local,0,0,30,1,0,-,-,-,-;"
           "peer:peer2.x,realm.b,0,0,30,1,0,-,-,-,-;peer:peer3.x,realm.c,0,0,30,1,0,-,-,-,-;"
           "app:4,1,0,b,0,0+1,-;app:3,0,1,b,0,1+2,extra.realm")
